@@ -19,7 +19,8 @@ Record gcase := mk_gcase {
   gc_e2 : e2_gen * e2_gen;
   gc_lv : lv_gen * lv_gen;
   gc_dao : dao_gen * dao_gen;
-  gc_auth : list (N * N);                      (* EthAccounts of the auth section: address, code hash *)
+  gc_auth : list (N * (acc_kind * N));         (* every account of the auth section: address, kind (EthAccount /
+                                                  ClawbackVestingAccount / BaseAccount / ModuleAccount), code hash *)
   gc_hash : list (N * N);                      (* Keccak of every code occurring in the case *)
   gc_evm : evm_gen * evm_gen
 }.
@@ -46,7 +47,7 @@ Definition case_detail (fixed : bool) (c : gcase) : list bool :=
     | Some s => bool_decide (lv_export s = (gc_lv c).2) | None => false end;
     match dao_init (gc_dao c).1 with
     | Some s => bool_decide (dao_export s = (gc_dao c).2) | None => false end;
-    let auth : gmap N N := list_to_map (gc_auth c) in
+    let auth : gmap N auth_acc := list_to_map (gc_auth c) in
     match evm_init (tbl_hash (gc_hash c)) all_valid (fun p => p) auth (gc_evm c).1 with
     | Some s => bool_decide (evm_export auth s = (gc_evm c).2) | None => false end ].
 
